@@ -11,6 +11,7 @@ LEVEL_TEXT = ('fault enumeration: every kind of rejected call of a fixed '
               'fixed histories at every argument position; holds on '
               'everything explored')
 RULE = (
+    'MDD: rejected find_or_add / apply / ite calls inside generated MDD histories must leave the MDD tables untouched. '
     'H: Hypothesis histories (dd.bdd and dd.autoref, dynamic reordering '
     'off and on) as in C06/C08 into which rejected calls are injected: '
     'undeclared variable (var, add_expr, let x3 as key or value, quantify, '
@@ -36,8 +37,8 @@ RULE = (
 ASSUMPTIONS = [
     'the type of the exception is not constrained (the property says '
     '"fails with an exception")',
-    'whether dynamic reordering stays enabled after a failed call is not '
-    'part of the statement and is not asserted',
+    'a rejected call must leave the dynamic-reordering switch as it was '
+    '("subsequent operations behave normally")',
     'calls of the catalogue that happen to be accepted (e.g. a token '
     'deletion that leaves a valid formula) are counted and not judged',
 ]
@@ -70,11 +71,20 @@ def plan(tier, seed):
                           cfgs=on if s % 3 == 2 else off,
                           examples=1200 if tier == 'thorough' else 150,
                           min_len=8, max_len=40))
+    # the MDD manager: rejected calls inside MDD histories (engine of C15)
+    for s in range(4 if tier == 'thorough' else 2):
+        specs.append(dict(kind='algebra', seed=seed * 100 + 90 + s,
+                          examples=1500 if tier == 'thorough' else 300))
     for pi in range(3):
         for api in ('bdd', 'autoref'):
             specs.append(dict(kind='catalogue', prefix=pi, api=api,
                               positions=24 if tier == 'thorough' else 8,
                               seed=seed))
+            if pi < 2 or tier == 'thorough':
+                specs.append(dict(kind='catalogue', prefix=pi, api=api,
+                                  reordering=True,
+                                  positions=12 if tier == 'thorough' else 4,
+                                  seed=seed))
     return specs
 
 
@@ -92,6 +102,8 @@ PREFIXES = [
 def run_catalogue(spec, out):
     """Every kind x a range of argument positions after a fixed prefix."""
     cfg = dict(kind=spec['api'], nmax=4, init_vars=3)
+    if spec.get('reordering'):
+        cfg.update(reordering=True, reorder_starts=4)
     prefix = PREFIXES[spec['prefix']]
     cnt = nt = 0
     for kind in range(NK):
@@ -117,10 +129,17 @@ def run_catalogue(spec, out):
 
 
 def run(spec, out):
+    if spec['kind'] == 'algebra':
+        from . import c15
+        return c15.run_algebra(spec, out)
     if spec['kind'] == 'random':
         H.run_random(spec, out, ALPHA, nontrivial)
     else:
         run_catalogue(spec, out)
 
 
-replay_into = H.replay_into
+def replay_into(case, out):
+    if case.get('kind') == 'algebra':
+        from . import c15
+        return c15.replay_into(case, out)
+    return H.replay_into(case, out)
